@@ -32,8 +32,11 @@ RULE = ("one case = one operation (sort_tilts_by_angle / remove_tilts / split_st
 ASSUMPTIONS = [
     "numpy basic/fancy indexing, np.delete, np.stack, transpose(2,1,0) and astype to the same dtype copy voxels bit for bit",
     "skimage.transform.downscale_local_mean(data,(1,b,b)) = mean over b x b blocks after zero padding to a multiple of b (probed every run)",
-    "block sums of the generated binning inputs (|numerator| <= 2000, denominators 1,2,4, b <= 5) are exact in float32/float64; the quotient is "
-    "correctly rounded; astype(int16) truncates toward zero (probed every run; the model applies the same truncation and the int16 results are compared exactly)",
+    "binning: int16 stacks (|value| <= 2000, detector counts 3000..9000, or the full int16 range; b in 1..5, 8) are reduced by skimage in float64, where "
+    "every block sum (< 2^53) is exact and the quotient is correctly rounded; astype(int16) truncates toward zero (probed every run; the model applies "
+    "the same truncation; compared exactly). float32 stacks are reduced in float32: the `small` stream (|numerator| <= 2000, denominators 1,2,4) is exact "
+    "and compared exactly, the `counts` / `large` streams (values up to 16384 with ten fractional bits) are compared with the summation bound "
+    "b*b * 2^-24 * max|x| (see _bin_tol), also between configurations (the memory layout changes the summation order)",
     "mrcfile writes exactly the header dimensions/mode and C-order bytes it is given and returns a 3-D array for nz >= 2 (output files are re-read "
     "by the harness's own parser; the parser is cross-checked against mrcfile by a probe on every run)",
     "decimal text -> float conversion of pandas (float32, one-value-per-line files), python float() (mdoc, lists) and numpy is correctly rounded, hence "
@@ -467,6 +470,7 @@ def translate(src):
         ("mdocReadBody", "Mdoc._read_mdoc", REL_MDOC), ("mdocParseImagesBody", "Mdoc._parse_images", REL_MDOC),
         ("mdocFeatureBody", "Mdoc.get_image_feature", REL_MDOC), ("cryomapReadBody", "read", REL_MAP), ("cryomapWriteBody", "write", REL_MAP)]]
     bodies.append(["mdocFormatValueBody", A("Mdoc._format_value:body", static_helper("Mdoc", "_format_value", REL_MDOC)) or []])
+    bodies.append(["mdocParseHeaderBody", A("Mdoc._parse_header:body", static_helper("Mdoc", "_parse_header", REL_MDOC)) or []])
 
     def pairs(xs):
         return "[" + ", ".join(f"({core.lean_str(str(a))}, {core.lean_str(str(b))})" for a, b in xs) + "]"
@@ -542,8 +546,8 @@ def values(case):
     size = n * h * w
     a, c = case["va"] | 1, case["vc"]
     k = np.arange(size, dtype=np.int64)
-    if case["op"] == "bin":   # small numerators over a power-of-two denominator: every block sum is exact
-        num = (k * a + c) % 4001 - 2000
+    if case["op"] == "bin":   # integer numerators over a power-of-two denominator (see numerators): every input value is exact
+        num = numerators(case)
         if case["dtype"] == "i16":
             return num
         return (num.astype(np.float64) / case["den"]).astype(np.float32).view(np.uint32).astype(np.int64)
@@ -554,9 +558,34 @@ def values(case):
 
 
 def numerators(case):
+    """binning inputs: voxel value = numerator / case['den']. bin_range (round 7: the old stream alone never reached the range where
+    an accumulator of the input dtype overflows):
+      small  |num| <= 2000, den 1/2/4: every block sum and mean is exact also in float32 (compared exactly)
+      counts 3000..9000 (realistic detector counts; a 4x4 block sums to > 32767)
+      full   the whole int16 range -32768..32767
+      large  |num| < 2^24 over den = 1024: float32-exact values up to 16384 with ten fractional bits (float32 stacks only)"""
     n, h, w = case["n"], case["h"], case["w"]
     k = np.arange(n * h * w, dtype=np.int64)
-    return (k * (case["va"] | 1) + case["vc"]) % 4001 - 2000
+    base = k * (case["va"] | 1) + case["vc"]
+    r = case.get("bin_range", "small")
+    if r == "counts":
+        return 3000 + base % 6001
+    if r == "full":
+        return base % 65536 - 32768
+    if r == "large":
+        return base % ((1 << 25) - 1) - ((1 << 24) - 1)
+    return base % 4001 - 2000
+
+
+def _bin_tol(case):
+    """H4: absolute tolerance of a float32 block mean outside the exact `small` stream. skimage's downscale_local_mean reduces a
+    float32 stack with np.mean in float32: a sum of N = b*b terms in any order has |error| <= (N-1) u sum|x| <= (N-1) u N max|x|
+    (u = 2^-24), the division by N adds u |mean| <= u max|x|; so |returned - exact mean| <= N u max|x| (1 % slack for the
+    second-order terms). int16 stacks are reduced in float64 (block sums < 2^53: exact) and compared exactly, as before."""
+    if case["dtype"] != "f32" or case.get("bin_range", "small") == "small":
+        return 0.0
+    maxabs = float(np.max(np.abs(numerators(case)))) / case.get("den", 1)
+    return 1.01 * case["b"] * case["b"] * 2.0 ** -24 * maxabs
 
 
 def array_of(codes, dtype):
@@ -638,6 +667,8 @@ def _params_for(rng, op, case, tier, bad):
                                      "mdoc", "mdoc", "mdoc"])
         if rng.random() < 0.03:
             out["ang_src"] = "tuple"                                   # array-like, but tlt_load refuses it loudly (outside; model: arg-type)
+        if out["ang_src"] == "mdoc" and rng.random() < 0.75:
+            out["mdoc_style"] = rng.randrange(1, 1 << 20)              # header titles / section keys / position of TiltAngle, see _mdoc_text
         if out["ang_src"] in ("tlt", "rawtlt", "mdoc") and rng.random() < 0.4:
             out["file_style"] = rng.choice(["crlf", "blank-end", "pad", "no-final-newline"] if out["ang_src"] != "mdoc" else ["crlf"])
         if all(re.fullmatch(r"-?\d+", t) for t in txt) and rng.random() < 0.6:
@@ -668,9 +699,15 @@ def _params_for(rng, op, case, tier, bad):
                 idxs.insert(rng.randrange(len(idxs) + 1), b - 1)      # one before the first image
             if src == "csv" or (src == "txt" and not idxs):
                 src = "list"
+        if not bad and src in ("txt", "csv") and rng.random() < 0.08:
+            idxs = []                                                  # an index file without entries / a csv with nothing flagged: nothing is removed (outside; model only)
         out.update(idxs=idxs, base1=base1, idx_src=src)
         if src == "csv":
-            out["csv_removed_col"] = rng.random() < 0.3
+            out["csv_removed_col"] = rng.random() < 0.45
+            if out["csv_removed_col"] and rng.random() < 0.7:
+                # rows of images that were removed earlier (Removed = True): `df = df[~df["Removed"]]` drops them BEFORE the positions of
+                # the flagged rows are taken, so the stack's n images are the remaining rows; [insert before stack row p, its ToBeRemoved flag]
+                out["csv_removed_rows"] = sorted([rng.randint(0, n), rng.random() < 0.5] for _ in range(rng.randint(1, 3)))
     elif op == "flip":
         r = rng.random()
         if r < 0.4:
@@ -680,6 +717,8 @@ def _params_for(rng, op, case, tier, bad):
         if bad:
             axes = axes + [rng.choice(["w", "X", "xy", ""])]
             kind = "list" if len(axes) > 1 else kind
+            if rng.random() < 0.3:
+                axes, kind = axes[-1:], "str"                            # a single bad axis name passed as a plain string
         out.update(axes=axes if kind != "str" else axes[0], axes_kind=kind)
     elif op == "crop":
         nw = None if rng.random() < 0.15 else rng.randint(1, w)
@@ -693,11 +732,12 @@ def _params_for(rng, op, case, tier, bad):
                 nw, nh = w + 1, h + 1
         out.update(new_w=nw, new_h=nh, size_kind=rng.choice(["int", "int", "int", "str", "float", "npint"]))
     elif op == "bin":
-        b = rng.choice([1, 2, 2, 2, 3, 3, 4, 5])
+        b = rng.choice([1, 2, 2, 2, 3, 3, 4, 4, 5, 8, 8])
         if rng.random() < 0.6:
             fit = lambda s: (s // b) * b if (s // b) * b >= 4 else b * -(-4 // b)
             out["h"], out["w"] = fit(h), fit(w)
-        out.update(b=b, den=rng.choice([1, 2, 4]) if case["dtype"] == "f32" else 1)
+        rg = rng.choice(["small", "counts", "full", "full"] if case["dtype"] == "i16" else ["small", "small", "counts", "large", "large"])
+        out.update(b=b, bin_range=rg, den={"small": rng.choice([1, 2, 4]), "large": 1024}.get(rg, 1) if case["dtype"] == "f32" else 1)
     return out
 
 
@@ -976,10 +1016,36 @@ def _src_of(case, key):
     return d
 
 
-def _mdoc_text(angles):
-    txt = "PixelSpacing = 1.35\nImageFile = ts.mrc\nImageSize = 10 7\nDataMode = 1\n\n[T = SerialEM: C15 harness]\n\n"
+MDOC_TITLES = ["[T = SerialEM: C15 harness]",
+               "[T = SerialEM: Digitized on EMBL Krios Falcon 4i       27-Sep-26  10:31:05]",
+               "[T =     Tilt axis angle = 85.3, binning = 1  spot = 8  camera = 0]",      # a real SerialEM title: several `=`
+               "[T = TS_01.mrc.mdoc written by C15 harness, dose rate = 7.9 e/px/s]"]
+MDOC_KEYS = [("StagePosition", "12.3456 -45.678"), ("Magnification", "42000"), ("Intensity", "0.117562"), ("ExposureDose", "3.0"),
+             ("PixelSpacing", "1.35"), ("SubFramePath", "D:\\frames\\TS_01_{z:03d}.tif"), ("DateTime", "27-Sep-26  10:33:{z:02d}"),
+             ("Defocus", "-3.5"), ("NumSubFrames", "8")]
+
+
+def _mdoc_text(angles, style=0):
+    """style 0: the fixed minimal template of the earlier rounds. style k > 0 (round 7): header with 1-3 titles (one of them with
+    several `=`, as SerialEM writes it), 1-4 extra keys per image section in an order derived from k, TiltAngle at a position
+    derived from k (first, middle or last key of the section). Every key line holds exactly one `=` (a second one makes the real
+    `key, value = line.split("=")` raise — outside) and every section holds the same keys (as SerialEM writes them)."""
+    if not style:
+        txt = "PixelSpacing = 1.35\nImageFile = ts.mrc\nImageSize = 10 7\nDataMode = 1\n\n[T = SerialEM: C15 harness]\n\n"
+        for z, a in enumerate(angles):
+            txt += f"[ZValue = {z}]\nTiltAngle = {a}\nExposureDose = 3.0\n\n"
+        return txt
+    r = __import__("random").Random(style)
+    titles = r.sample(MDOC_TITLES, r.randint(1, 3))
+    if r.random() < 0.6 and MDOC_TITLES[2] not in titles:
+        titles[r.randrange(len(titles))] = MDOC_TITLES[2]
+    keys = r.sample(MDOC_KEYS, r.randint(1, 4))
+    at = r.choice([0, len(keys) // 2, len(keys)])
+    txt = "PixelSpacing = 1.35\nVoltage = 300\nImageFile = ts.mrc\nImageSize = 10 7\nDataMode = 1\n\n" + "".join(t + "\n\n" for t in titles)
     for z, a in enumerate(angles):
-        txt += f"[ZValue = {z}]\nTiltAngle = {a}\nExposureDose = 3.0\n\n"
+        lines = [f"{k} = {v.format(z=z)}" for k, v in keys]
+        lines.insert(at, f"TiltAngle = {a}")
+        txt += f"[ZValue = {z}]\n" + "\n".join(lines) + "\n\n"
     return txt
 
 
@@ -987,7 +1053,7 @@ def _angle_file_text(case):
     """the exact text of the angle file of a sort case (deterministic: the adapter writes it, the model receives its lines)"""
     txt, src, style = _atxt(case), _src_of(case, "ang_src"), case.get("file_style", "plain")
     if src == "mdoc":
-        body = _mdoc_text(txt)
+        body = _mdoc_text(txt, case.get("mdoc_style", 0))
     else:
         width = max(len(t) for t in txt) + 2 if style == "pad" else 0
         body = "".join((" " if src == "rawtlt" else "") + t.rjust(width) + "\n" for t in txt)
@@ -1038,8 +1104,13 @@ def _make_arg(case, td, tag="arg"):
         flagged = {i - b for i in case["idxs"]}
         with open(path, "w") as f:
             f.write("ToBeRemoved,Removed\n" if case.get("csv_removed_col") else "ToBeRemoved\n")
-            for i in range(case["n"]):
-                f.write(("True" if i in flagged else "False") + (",False\n" if case.get("csv_removed_col") else "\n"))
+            extra = case.get("csv_removed_rows") or []
+            for i in range(case["n"] + 1):
+                for pos, flag in extra:
+                    if pos == i:
+                        f.write(("True" if flag else "False") + ",True\n")
+                if i < case["n"]:
+                    f.write(("True" if i in flagged else "False") + (",False\n" if case.get("csv_removed_col") else "\n"))
         return path
     if op == "flip":
         kind = case.get("axes_kind") or ("list" if isinstance(case["axes"], list) else "str")
@@ -1105,6 +1176,16 @@ def _norm(r, out, dtype):
     if not isinstance(r, np.ndarray) or r.ndim != 3:
         return None
     return codes_of(r if out == "zyx" else np.transpose(r, (2, 1, 0)), dtype)
+
+
+def _same_codes(case, a, b):
+    """two configurations return the same stack: bit for bit — except float32 block means outside the exact `small` stream, where the
+    memory layout of the input (x,y,n view vs. n,y,x) changes the order of the float32 summation: each is within _bin_tol of the
+    exact mean, so they are compared to twice that bound (H4)"""
+    tol = _bin_tol(case) if case["op"] == "bin" else 0.0
+    if tol == 0:
+        return bool(np.array_equal(a, b))
+    return bool(np.all(np.abs(_decode(case, a) - _decode(case, b)) <= 2 * tol))
 
 
 def _file_detail(files, norm, rets, dtype):
@@ -1199,7 +1280,7 @@ def run_impl(case):
                 if "error" in obs["ref"]:
                     rec["same"], rec["detail"] = False, f"returns although the reference configuration raises {obs['ref']['error']}"
                 else:
-                    same = len(norm) == len(norm0) and all(a.shape == b.shape and np.array_equal(a, b) for a, b in zip(norm, norm0))
+                    same = len(norm) == len(norm0) and all(a.shape == b.shape and _same_codes(case, a, b) for a, b in zip(norm, norm0))
                     rec["same"] = bool(same)
                     if not same:
                         rec["detail"] = "shapes " + str([list(a.shape) for a in norm]) + " vs " + str([list(a.shape) for a in norm0]) \
@@ -1358,15 +1439,20 @@ def _expect(case):
         txt = _atxt(case)
         if _src_of(case, "ang_src") == "tuple":
             return "outside", "angles passed as a tuple (tlt_load accepts a path, a list or an ndarray and refuses anything else)"
-        if len(txt) != n:
-            return "outside", "the angle list has another length than the stack"
+        m = len(txt)
         if not all(DEC_RE.fullmatch(t.strip()) for t in txt):
             return "outside", "an angle that is not a plain decimal number"
-        if len({Fraction(t.strip()) for t in txt}) < n:
-            return "ties", "tied angles (the statement says: without ties)"
-        if len(set(_keys_as_read(case))) < n:
-            # monotone rounding keeps the order of different angles unless it merges them; needs >= 7 significant digits (float32)
-            return "ties", "different written angles that round to the same float in the reader's dtype"
+        if m <= n:
+            # ties are decided BEFORE the length: a list shorter than the stack that holds a tie is in both classes, and the
+            # position of tied images must never be compared with the (stable) model -- numpy's default argsort is not stable
+            short = "" if m == n else "; the angle list is also shorter than the stack"
+            if len({Fraction(t.strip()) for t in txt}) < m:
+                return "ties", "tied angles (the statement says: without ties)" + short
+            if len(set(_keys_as_read(case))) < m:
+                # monotone rounding keeps the order of different angles unless it merges them; needs >= 7 significant digits (float32)
+                return "ties", "different written angles that round to the same float in the reader's dtype" + short
+        if m != n:
+            return "outside", "the angle list has another length than the stack"
     if op == "remove":
         src = _src_of(case, "idx_src")
         b = 1 if case["base1"] else 0
@@ -1448,7 +1534,8 @@ def _spec(case, X, res):
         g = got[:, :fh, :fw]
         mean = S.astype(np.float64) / float(b * b * den)
         if case["dtype"] == "f32":
-            bad = g != mean.astype(np.float32).astype(np.float64)
+            tol = _bin_tol(case)
+            bad = (g != mean.astype(np.float32).astype(np.float64)) if tol == 0 else ~(np.abs(g - mean) <= tol)
             if bad.any():
                 z, j, i = [int(v[0]) for v in np.nonzero(bad)]
                 return "spec", "bin-block-means", f"block (tilt {z}, row {j}, col {i}): returned {g[z, j, i]}, block mean {Fraction(int(S[z, j, i]), b * b * den)}"
@@ -1502,10 +1589,11 @@ def _values_differ(case, mdata, rdata):
         return None
     got = _decode(case, np.array(rdata, dtype=np.int64))
     q = np.array([a / b for a, b in mdata], dtype=np.float64)          # exact: dyadic/25-type quotients of small integers, correctly rounded
-    bad = got != q.astype(np.float32).astype(np.float64)
+    tol = _bin_tol(case)
+    bad = (got != q.astype(np.float32).astype(np.float64)) if tol == 0 else ~(np.abs(got - q) <= tol)
     if bad.any():
         j = int(np.flatnonzero(bad)[0])
-        return f"voxel #{j}: implementation {got[j]}, model block mean {mdata[j][0]}/{mdata[j][1]}"
+        return f"voxel #{j}: implementation {got[j]}, model block mean {mdata[j][0]}/{mdata[j][1]}" + (f" (tolerance {tol:.3g})" if tol else "")
     return None
 
 
@@ -1533,21 +1621,22 @@ def _judge_error(case, err, model, where, status, why, msg=""):
 
 
 def _ascending_some_order(case, X, res):
-    """tied angles (outside the statement): numpy's default argsort is not stable, so only this is checked — the result is the input
-    images in SOME order that is ascending in the written angle (tied images in either order)"""
+    """tied angles (outside the statement): numpy's default argsort is not stable, so only this is checked — the result is the
+    images that have an angle (the first m of the stack when the list holds m <= n angles: `ts.data[argsort(angles)]`) in SOME order
+    that is ascending in the written angle (tied images in either order)"""
     ang = [Fraction(t.strip()) for t in _atxt(case)]
     if _expect(case)[1].startswith("different"):
         ang = _keys_as_read(case)
-    n = X.shape[0]
-    if res[0].shape != X.shape:
-        return f"result has shape {res[0].shape}, input {X.shape}"
+    n, m = X.shape[0], len(ang)
+    if res[0].shape != (m,) + X.shape[1:]:
+        return f"result has shape {res[0].shape}, input {X.shape} with {m} angles"
     first = {tuple(X[i].ravel().tolist()): i for i in range(n)}
     if len(first) < n:
         return None                              # two identical images: positions cannot be recovered, nothing to say
-    pos = [first.get(tuple(res[0][k].ravel().tolist())) for k in range(n)]
-    if None in pos or sorted(pos) != list(range(n)):
-        return "result is not a permutation of the input images"
-    if any(ang[pos[k]] > ang[pos[k + 1]] for k in range(n - 1)):
+    pos = [first.get(tuple(res[0][k].ravel().tolist())) for k in range(m)]
+    if None in pos or sorted(pos) != list(range(m)):
+        return f"result is not a permutation of the {m} images that have an angle"
+    if any(ang[pos[k]] > ang[pos[k + 1]] for k in range(m - 1)):
         return f"result order {pos} is not ascending in the angles"
     return None
 
@@ -1566,9 +1655,9 @@ def _judge_seq(case, obs, resps):
         model = resps[k] if k < len(resps) else {"error": "no-model-answer"}
         status, why = _expect(st)
         if call.get("arg_modified"):
-            out.append(dict(kind="spec", clause="caller-owned-argument-modified", detail=f"{st['op']} {where} changed the object passed as its second argument: {call['arg_modified']}"))
+            out.append(dict(kind="corr", clause="caller-owned-argument-modified", detail=f"{st['op']} {where} changed the object passed as its second argument: {call['arg_modified']}"))
         if call.get("mutated_input"):
-            out.append(dict(kind="spec", clause="caller-owned-argument-modified", detail=f"{st['op']} {where} changed the stack / the input file it was given"))
+            out.append(dict(kind="corr", clause="caller-owned-argument-modified", detail=f"{st['op']} {where} changed the stack / the input file it was given"))
         if "error" in call:
             out += _judge_error(st, call["error"], model, where, status, why, call.get("error_msg", ""))
             if call.get("files_left"):
@@ -1615,11 +1704,11 @@ def judge(case, obs, resps):
         out.append(dict(kind="corr", clause="input-file", detail="the MRC input file written for the case does not hold the stack (mrcfile vs harness parser)"))
     for c in obs["configs"]:
         if c.get("arg_modified"):
-            out.append(dict(kind="spec", clause="caller-owned-argument-modified", detail=f"{case['op']} in configuration {c['cfg']} changed the object passed as its second argument (the same object is re-used for all calls): {c['arg_modified']}"))
+            out.append(dict(kind="corr", clause="caller-owned-argument-modified", detail=f"{case['op']} in configuration {c['cfg']} changed the object passed as its second argument (the same object is re-used for all calls): {c['arg_modified']}"))
             break
     for c in obs["configs"]:
         if c.get("mutated_input"):
-            out.append(dict(kind="spec", clause="caller-owned-argument-modified", detail=f"{case['op']} in configuration {c['cfg']} changed the stack array / input file it was given"))
+            out.append(dict(kind="corr", clause="caller-owned-argument-modified", detail=f"{case['op']} in configuration {c['cfg']} changed the stack array / input file it was given"))
             break
     foreign = next((c for c in obs["configs"] if str(c.get("error", "")).startswith("foreign:")), None)
     if foreign is not None and not str(ref.get("error", "")).startswith("foreign:"):
@@ -1721,7 +1810,8 @@ def stats(case, obs, resps):
         left = n - len({i for i in case["idxs"]})
         d["remove"] = ("1-based" if case["base1"] else "0-based") + ("/keyword-omitted" if not _passed(case, "numbered_from_1", bool(case["base1"])) else "") \
             + ("/all" if left == 0 else "")
-        d["remove_src"] = _src_of(case, "idx_src")
+        d["remove_src"] = _src_of(case, "idx_src") + ("/Removed column" if case.get("csv_removed_col") else "") + (f"/{len(case['csv_removed_rows'])} Removed=True rows" if case.get("csv_removed_rows") else "") \
+            + ("/no entries" if not case["idxs"] and _src_of(case, "idx_src") in ("txt", "csv") else "")
         d["remove_remaining"] = "0" if left <= 0 else ("1" if left == 1 else ("2-4" if left <= 4 else "5+")) + ("/n>8" if n > 8 else "")
     if case["op"] == "sort":
         txt = _atxt(case)
@@ -1732,15 +1822,23 @@ def stats(case, obs, resps):
         d["sort_min_gap_deg"] = "tie" if gap == 0 else ("<=1e-4" if gap <= Fraction(1, 10000) else ("<=0.01" if gap <= Fraction(1, 100) else ("<0.05" if gap < Fraction(1, 20) else ">=0.05")))
         if _src_of(case, "ang_src") in ("tlt", "rawtlt", "mdoc"):
             d["sort_file_style"] = case.get("file_style", "plain")
+        if _src_of(case, "ang_src") == "mdoc":
+            t = _mdoc_text(["0"], case.get("mdoc_style", 0))
+            d["sort_mdoc_template"] = ("fixed" if not case.get("mdoc_style") else f"{t.count('[T =')} titles") + ("/title with several =" if "Tilt axis angle =" in t else "") \
+                + ("/TiltAngle first" if "]\nTiltAngle" in t else ("/TiltAngle last" if "TiltAngle = 0\n\n" in t else "/TiltAngle in the middle"))
         d["sort_angle_text"] = "dyadic" if all((Fraction(t.strip()) * 8).denominator == 1 for t in txt) else f"decimal/{max(len(t.partition('.')[2]) for t in txt)}dp"
         d["sort_input_order"] = "descending" if fr[::-1] == [Fraction(t.strip()) for t in txt] and m > 1 else ("ascending" if fr == [Fraction(t.strip()) for t in txt] else "mixed")
     if case["op"] == "flip":
         d["flip_axes"] = (case.get("axes_kind") or "") + ":" + ("".join(case["axes"]) if isinstance(case["axes"], list) else case["axes"])
     if case["op"] == "bin":
+        d["bin_range"] = f"{case['dtype']}/{case.get('bin_range', 'small')}"
         d["bin"] = f"b={case['b']}" + ("" if case["h"] % case["b"] == 0 and case["w"] % case["b"] == 0 else "/partial-blocks")
         dev = max_bin_dev(case, obs, resps[0]) if resps else None
         if dev is not None:
             d["bin_max_dev_vs_exact_mean(float32)"] = "0" if dev == 0 else ("<2^-20" if dev < 2 ** -20 else ">=2^-20")
+            tol = _bin_tol(case)
+            if tol:
+                d["bin_dev_over_tolerance(float32, non-exact streams)"] = "0" if dev == 0 else ("<1%" if dev < 0.01 * tol else ("<10%" if dev < 0.1 * tol else ("<=100%" if dev <= tol else ">100%")))
     if case["op"] == "crop":
         par = lambda full, new: "None" if new is None else ("same-parity" if (full - new) % 2 == 0 else "odd-margin")
         d["crop_w"], d["crop_h"] = par(case["w"], case["new_w"]), par(case["h"], case["new_h"])
@@ -1792,7 +1890,7 @@ LEVEL_TEXT = ("Lean 4 theorems about an executable model of the tilt-stack opera
               "exact rational value of the angles as written in the .tlt / .mdoc file or list (decimal text parsed in Lean), unique without ties; removal keeps exactly "
               "the other images in order for 1-/0-based indices and every index source, even/odd split interleaves back, flips are involutions that reverse the "
               "documented axis, the crop is the centred window, binning is the block mean and its int16 cast a truncation toward zero, x,y,n / n,y,x / MRC-file "
-              "input give the same result and the written file holds it, also through the dtype cast and for each of the real functions) for all stack sizes "
+              "input give the same result and the written file holds it, also through the dtype cast and for each of the six real functions (binning: file_holds_result_bin)) for all stack sizes "
               "and all voxel values; the model is tied to the source by regenerated anchors (flip axis table, index shift, parity rule, transpose axes and "
               "conditions, signature defaults, the TiltStack -> write_out -> correct_order wrapper of each function, alpha-normalised dumps of the whole "
               "bodies of the six functions, the TiltStack methods, indices_load, tlt_load, one_value_per_line_read, the mdoc reader (Mdoc.__init__, _read_mdoc, "
